@@ -88,6 +88,7 @@ inductive Err
   | ctxCanceled           -- ctx.Err()
   | rawDelUnknownIn
   | rawDelMultiIn
+  | ackUnsent             -- PROTOCOL_VIOLATION: ACK for a packet that was never sent (connection glue, C15 sglue)
 deriving DecidableEq, Repr
 
 def Err.isStateError : Err → Bool
@@ -113,6 +114,7 @@ def Err.name : Err → String
   | .ctxCanceled => "canceled"
   | .rawDelUnknownIn => "raw:del-unknown-in"
   | .rawDelMultiIn => "raw:del-multi-in"
+  | .ackUnsent => "proto"
 
 /-- control frames queued through `queueControlFrame` -/
 inductive Frame
